@@ -402,6 +402,10 @@ type worldCfg struct {
 	WhiteBox   bool
 	IndexReads bool // invariant reads through every index
 	Speculate  bool // execute requests whose rejection is not demanded by a property (C08)
+	// ErrorsSpeculative: a request the model expects to fail is only required
+	// to leave no trace if the implementation rejects it (C08 does not decide
+	// whether it must be rejected)
+	ErrorsSpeculative bool
 	GetKeys    bool // invariant GetItem of every pool key
 }
 
@@ -450,7 +454,7 @@ func (w *world) do(op model.Op) (model.Result, int, *failure) {
 		stats.For(w.prop).WeakCase()
 		return want, stepWeak, nil
 	}
-	if want.Spec {
+	if want.Spec || w.cfg.ErrorsSpeculative && want.Err != "" {
 		// DynamoDB rejects this request for a reason no listed property
 		// demands. What the properties do demand (C08): if the implementation
 		// rejects it, nothing changes.
